@@ -187,7 +187,10 @@ pub fn gen_ops(r: &mut Rng, mix: &Mix) -> Vec<Op> {
                 _ => ops.push(Op::RemoveRuleClause { kg, name: format!("d{}", r.below(3)), index: r.below(2) as usize }),
             }
         } else if take!(mix.w_schema) {
-            if r.chance(2, 3) {
+            if r.chance(1, 6) {
+                // dropping a relation removes its schema too - durably
+                ops.push(Op::DropRelation { kg, rel: format!("t{}", r.below(2)) });
+            } else if r.chance(2, 3) {
                 let tys = ["int", "string", "float", "any"];
                 let cols = vec![("a".to_string(), r.pick(&tys).to_string()), ("b".to_string(), r.pick(&tys).to_string())];
                 ops.push(Op::RegisterSchema { kg, rel: format!("t{}", r.below(2)), cols });
